@@ -103,6 +103,8 @@ class C12(Check):
                         "edits": (["dh_remove", "rename", "dh_remove_hole"] if kind == "dhgroup" else
                                   ["values_rw", "metadata_nested", "rename"] if target != "same"
                                   else ["metadata_nested", "values_rw"])})
+            if kind == "group" and children:
+                out.append({**out[-1], "override_name": True})
             if kind == "dhgroup" and children:
                 # the source is first read AFTER the copy was edited (values cached by an earlier read would hide a
                 # stale shared index)
@@ -121,6 +123,7 @@ class C12(Check):
             "edits": st.lists(st.sampled_from(["values", "values_rw", "vertices", "metadata", "metadata_nested", "rename", "pg",
                                                "dh_remove", "dh_remove_hole"]), max_size=3),
             "source_mode": st.sampled_from(["r+", "r+", "r"]), "defer_source_read": st.booleans(),
+            "override_name": st.booleans(),
         }).map(lambda d: {**{k: v for k, v in d.items() if k != "kind_cls"}, "kind": d["kind_cls"][0], "cls": d["kind_cls"][1]})
 
     # ------------------------------------------------------------------ builders
@@ -151,6 +154,11 @@ class C12(Check):
                     obj.add_data_to_group(group, f"pg_{group[0].association.name}")
                 except Exception:
                     pass
+        if vertex or cellish:
+            try:
+                obj.find_or_create_property_group(name="to be filled")  # an empty group listed after the filled ones
+            except Exception:
+                pass
         if "survey" not in cls.__module__ and "surveys" not in cls.__module__:
             try:
                 obj.metadata = {"note": "m", "n": 3, "Survey": {"line": 1, "deep": {"x": [1, 2]}}}
@@ -278,6 +286,10 @@ class C12(Check):
             kwargs = {"parent": dest, "clear_cache": p["clear"]}
             if kind != "data":
                 kwargs["copy_children"] = p["children"]
+            rename = bool(p.get("override_name")) and kind in ("group", "object")
+            if rename:
+                kwargs["name"] = "Backup"  # an attribute override meant for the copied entity only
+                res.label("copy-with-name-override")
             try:
                 new = subject.copy(**kwargs)
             except Exception as exc:
@@ -295,6 +307,8 @@ class C12(Check):
                 return res
             # (1) equality
             want = _copy.deepcopy(before)
+            if rename and isinstance(want.get("node"), dict) and "name" in want["node"]:
+                want["node"]["name"] = "Backup"
             if not p["children"] and kind != "data":
                 if kind == "dhgroup":
                     want["holes"] = []
@@ -303,6 +317,21 @@ class C12(Check):
                     if "pgs" in want["node"]:
                         want["node"]["pgs"] = []
             got = self.snap(new, p, cross)
+            if rename:
+                # (keyword overrides are applied to the entity AND to its type where the type has an attribute of that
+                # name - a type shared with children of the same class: type names are not compared for such copies)
+                def strip(tree_):
+                    if isinstance(tree_, dict):
+                        if isinstance(tree_.get("type"), dict):
+                            tree_["type"].pop("name", None)
+                        for value in tree_.values():
+                            strip(value)
+                    elif isinstance(tree_, list):
+                        for value in tree_:
+                            strip(value)
+
+                strip(want)
+                strip(got)
             if cross:
                 self.drop_type_uids(want)
                 self.drop_type_uids(got)
